@@ -537,9 +537,21 @@ func (l *Lexer) shiftEndTag() []byte {
 func (l *Lexer) shiftXML(rawTag Hash) []byte {
 	inTag := true    // so far we have parsed `<svg` or `<math`
 	quote := byte(0) // the quote character of the attribute value we are in, or zero
+	skip := 0        // 1 inside a comment, 2 inside a CDATA section, 3 inside a processing instruction
 	for {
 		c := l.r.Peek(0)
-		if quote != 0 && c != 0 {
+		if skip != 0 && c != 0 {
+			// inside a comment, CDATA section or processing instruction, where an end tag is not an end tag
+			if skip == 1 && l.at('-', '-', '>') || skip == 2 && l.at(']', ']', '>') {
+				l.r.Move(3)
+				skip = 0
+			} else if skip == 3 && l.at('?', '>') {
+				l.r.Move(2)
+				skip = 0
+			} else {
+				l.r.Move(1)
+			}
+		} else if quote != 0 && c != 0 {
 			if c == quote {
 				quote = 0
 			}
@@ -553,8 +565,19 @@ func (l *Lexer) shiftXML(rawTag Hash) []byte {
 			}
 			l.r.Move(1)
 		} else if c == '<' && l.r.Peek(1) != '/' {
-			inTag = l.r.Peek(1) != '!' && l.r.Peek(1) != '?' // not a comment, CDATA section or processing instruction
-			l.r.Move(1)
+			if l.at('<', '!', '-', '-') {
+				skip = 1
+				l.r.Move(4)
+			} else if l.at('<', '!', '[', 'C', 'D', 'A', 'T', 'A', '[') {
+				skip = 2
+				l.r.Move(9)
+			} else if l.r.Peek(1) == '?' {
+				skip = 3
+				l.r.Move(2)
+			} else {
+				inTag = l.r.Peek(1) != '!'
+				l.r.Move(1)
+			}
 		} else if c == '<' {
 			mark := l.r.Pos()
 			l.r.Move(2)
